@@ -1,8 +1,8 @@
 #!/usr/bin/env python3
-"""usage: save_seed.py <seed id> <property> <demo pkg dir> <detected: yes|no|partial> <check note> — copies /tmp/seeded/<id> into /verif/seeded/<id> and writes meta.json"""
+"""usage: save_seed.py <seed id> <property> <demo pkg dir> <detected: yes|no|partial> <check note> — copies $SEED_SRC/<id> (default /tmp/seeded/<id>) into /verif/seeded/<id> and writes meta.json"""
 import sys, os, shutil, json, re
 sid, prop, pkg, detected, note = sys.argv[1:6]
-src = '/tmp/seeded/' + sid
+src = os.environ.get('SEED_SRC', '/tmp/seeded') + '/' + sid
 dst = '/verif/seeded/' + sid
 os.makedirs(dst, exist_ok=True)
 for f in os.listdir(src):
